@@ -242,6 +242,36 @@ func c20run(r *kernel.Run, seed uint64) {
 	}
 	r.Logf("history: account ops=%d, joined group=%v, exported members=%d (entries %d)", nops, mm != nil, len(members), total)
 
+	// every single-bit flip of (up to three) exported entries offered to the reader that restore uses for entry members:
+	// bytes that do not hash to the identifier they are filed under are never accepted (enumeration; the sampled
+	// "flip-entry" fault below takes the same alteration through the whole restore)
+	swept := 0
+	for _, m := range members {
+		if !strings.HasPrefix(m.hdr.Name, exportOrbitDBEntriesPrefix) || swept >= 3 {
+			continue
+		}
+		swept++
+		cidStr := strings.TrimPrefix(m.hdr.Name, exportOrbitDBEntriesPrefix)
+		for bit := 0; bit < len(m.data)*8; bit++ {
+			d := append([]byte(nil), m.data...)
+			d[bit/8] ^= 1 << (bit % 8)
+			tr := tar.NewReader(bytes.NewReader(c20write([]c20member{{hdr: tar.Header{Name: m.hdr.Name, Mode: 0o600, Size: int64(len(d))}, data: d}})))
+			h, err := tr.Next()
+			if err != nil {
+				r.Infra("tar: %v", err)
+				return
+			}
+			r.Fault("entry_bit_flip_enumerated")
+			if _, err := readExportCBORNode(h.Size, cidStr, tr); err == nil {
+				r.Violate("restore", "invalid-archive-accepted/flip-entry", "the entry reader of restore accepts entry %s with bit %d flipped (byte %d: %02x -> %02x): bytes that do not hash to the identifier", cidStr, bit, bit/8, m.data[bit/8], d[bit/8])
+				return
+			}
+		}
+	}
+	if swept > 0 {
+		r.Probe("entry_bit_flips_enumerated")
+	}
+
 	// mutation of the archive in transit
 	fault := []string{"none", "none", "flip-entry", "flip-heads", "flip-key", "drop-entry", "drop-key", "dup-key", "dup-entry", "reorder", "truncate", "used-store", "drop-both-keys", "reencoded-entry"}[s.r.Choose(14)]
 	mutated := archive
